@@ -211,7 +211,9 @@ def _hook_fns(stack, kind, level, k):
     return abody2
 
 
-def make_resource(stack, hooks):
+def make_resource(stack, hooks, inherit=False):
+    """inherit=True: the responder (with its method-level hooks) lives on a base class and the class that
+    carries the class-level hooks merely inherits it."""
     cb, mb, ca, ma = hooks
     if stack == 'wsgi':
         def on_get(self, req, resp, **params):
@@ -226,7 +228,11 @@ def make_resource(stack, hooks):
     for kind, level, k in reversed(decos):
         fn = _hook_fns(stack, kind, level, k)
         on_get = (falcon.before if kind == 'before' else falcon.after)(fn)(on_get)
-    cls = type('Res', (), {'on_get': on_get})
+    if inherit:
+        base = type('ResBase', (), {'on_get': on_get})
+        cls = type('Res', (base,), {})
+    else:
+        cls = type('Res', (), {'on_get': on_get})
     decos = [('before', 'c', k) for k in range(cb)] + [('after', 'c', k) for k in range(ca)]
     for kind, level, k in reversed(decos):
         fn = _hook_fns(stack, kind, level, k)
@@ -283,7 +289,7 @@ def build(cfg):
         for c in comps:
             app.add_middleware(c)
     app.add_error_handler(AppError, _handler_sync if stack == 'wsgi' else _handler_async)
-    b.resource = make_resource(stack, tuple(cfg['hooks']))
+    b.resource = make_resource(stack, tuple(cfg['hooks']), bool(cfg.get('inherit')))
     app.add_route('/r/{%s}' % b.pname, b.resource)
     app.add_sink(_sink_sync if stack == 'wsgi' else _sink_async, '/s/(?P<%s>[a-z]+)' % b.sname)
     b.app = app
@@ -422,7 +428,7 @@ def names_of(b):
 
 def cfg_key(cfg):
     return (cfg['stack'], tuple(tuple(ms) for ms in cfg['shape']), cfg['indep'], cfg['target'], cfg['reg'],
-            cfg['flavour'], tuple(cfg['hooks']))
+            cfg['flavour'], tuple(cfg['hooks']), bool(cfg.get('inherit')))
 
 
 def ev_kind(ev):
@@ -778,6 +784,10 @@ def gen_configs(tier, seed):
                             continue
                         out.append(({'stack': stack, 'shape': shape, 'indep': indep, 'target': 'routed',
                                      'reg': 'ctor', 'flavour': 'plain', 'hooks': hooks, 'seed': seed}, 2))
+                        if (hooks[0] or hooks[2]) and n <= 1:
+                            # class-level hooks on a class whose responder is inherited from a base class
+                            out.append(({'stack': stack, 'shape': shape, 'indep': indep, 'target': 'routed', 'reg': 'ctor',
+                                         'flavour': 'plain', 'hooks': hooks, 'seed': seed, 'inherit': True}, 2))
     return out
 
 
